@@ -622,6 +622,12 @@ pub fn check_prefixes(fam: Fam, lo: u128, hi: u128) -> Result<usize, Fail> {
     }
     let last = ps.last().unwrap().max().to_bits();
     ensure_sig!(last == hi, "prefixes", "{} of {:x}-{:x} ends at {:x}: [{}]", name, lo, hi, last, show(&ps));
+    // the decomposition through the iterator's adaptors (at most 2 * 128 prefixes)
+    if fam == Fam::V4 {
+        crate::iterlaws::check(name, "prefixes", 300, || r.to_v4_prefixes())?;
+    } else {
+        crate::iterlaws::check(name, "prefixes", 300, || r.to_v6_prefixes())?;
+    }
     Ok(ps.len())
 }
 
